@@ -693,6 +693,10 @@ class AsyncFIXConnection:
         assert seqreset_msg.msg_type == FMsg.SEQUENCERESET
 
         if seqreset_msg.get(FTag.GapFillFlag, None) == "Y":
+            if int(seqreset_msg[FTag.MsgSeqNum]) != self._session.next_num_in:
+                # GapFill is a part of the sequence itself: honoured only at the
+                #  expected number (a higher one is a gap, handled by the caller)
+                return
             if self._connection_state != ConnectionState.RESENDREQ_AWAITING:
                 self.log.warning(
                     "Getting SEQUENCERESET(GapFillFlag=Y) while not filling gaps"
